@@ -64,6 +64,37 @@ def _kw(r, kind, name, flags=True):
     return enc(kw)
 
 
+def gen_chain_drawing(r, flags=True):
+    """a loop drawn purely cursor-style (every element starts where the previous one ended, no coordinates in
+    the user parameters), optionally with a second mesh; returns (recipe, sibling) where the sibling is the same
+    chain preceded by a wire, i.e. the same elements at other absolute positions"""
+    unit = r.choice([3, 5, 7])
+    S = float(unit)
+    names = G.element_names(r, 8)
+    dirs = r.choice([["up", "right", "down", "left"], ["right", "down", "left", "up"], ["down", "left", "up", "right"]])
+    kinds = [r.choice(SRC_KINDS[:4]), r.choice(PAS_KINDS), r.choice(PAS_KINDS), "line"]
+    elems = []
+    for k, (kind, d) in enumerate(zip(kinds, dirs)):
+        elems.append({"cls": kind, "kw": _kw(r, kind, names[k], flags), "dir": d, "len": S})
+    if r.random() < 0.5:
+        # second mesh hanging on the far side: starts at the end of the 2nd element
+        k2 = r.choice(PAS_KINDS)
+        elems.append({"cls": k2, "kw": _kw(r, k2, names[5], flags), "dir": dirs[1], "len": S, "at": {"el": 1, "anchor": "end"}})
+        elems.append({"cls": "resistor", "kw": _kw(r, "resistor", names[6], flags), "dir": dirs[2], "len": S})
+        elems.append({"cls": "line", "kw": enc({}), "dir": dirs[3], "len": S})
+    if r.random() < 0.8:
+        elems.append({"cls": "ground", "kw": _kw(r, "ground", "0")})
+    rec = {"kind": "drawing", "unit": unit, "ctx": r.random() < 0.5, "elems": elems}
+    import copy
+    sib = copy.deepcopy(rec)
+    lead = {"cls": "line", "kw": enc({}), "dir": r.choice(["right", "up"]), "len": S * r.choice([1, 2])}
+    sib["elems"].insert(0, lead)
+    for e in sib["elems"][1:]:
+        if "at" in e and "el" in e["at"]:
+            e["at"]["el"] += 1
+    return rec, sib
+
+
 def gen_drawing(r, flags=True):
     """connected sub-graph of a small integer grid; every edge is a symbol or a wire placed along it in
     one of the four directions, explicitly or cursor-style"""
@@ -265,6 +296,14 @@ def plan(seed, overrides=None):
     for i in range(cfg["n_drawings"]):
         recipes[f"dr{i}"] = gen_drawing(rr, cfg["flags"])
         recipes[f"decl{i}"] = gen_declarative(rr)
+    if rr.random() < 0.45:
+        # a cursor-style chain and its shifted sibling: identical elements at other absolute positions
+        a, b = gen_chain_drawing(rr, cfg["flags"])
+        n = cfg["n_drawings"]
+        recipes[f"dr{n}"], recipes[f"dr{n + 1}"] = a, b
+        recipes[f"decl{n}"] = recipes["decl0"]
+        recipes[f"decl{n + 1}"] = recipes["decl0"]
+        cfg["n_drawings"] = n + 2
     world = {"cfg": cfg, "recipes": recipes}
     counter = [0]
     scripts = [_script(S("client", c), c, world, counter) for c in range(cfg["clients"])]
